@@ -374,6 +374,49 @@ pub fn gen_lzma2_size_boundary(t: &mut Tape) -> Lzma2Built {
     }
 }
 
+/// Two cheap long chunks (2 MiB and 70 KB - 1 MiB) with literal bursts: a block
+/// of more than 2 MiB, whose sizes need four-byte integers in the container.
+pub fn gen_lzma2_huge(t: &mut Tape) -> Lzma2Built {
+    let mut w = Lzma2Writer::new();
+    let mut note = String::new();
+    let mut lr = crate::prng::Xoshiro::new(t.u64());
+    for i in 0..2 {
+        let target = if i == 0 { (1u64 << 21) - t.below(2) } else { t.range(70_000, 1 << 20) };
+        let reset: u8 = if i == 0 { 3 } else { t.below(4) as u8 };
+        let newp = if reset >= 2 { Some(gen::draw_props(t, true)) } else { None };
+        let ts = w.enc.trace.len();
+        let start = w_start(&w);
+        w.begin_lzma_chunk(reset, newp);
+        let b = t.byte();
+        let _ = w.enc.encode(Sym::Lit(b));
+        while (w.enc.model.out.len() as u64) < start + target {
+            let left = start + target - w.enc.model.out.len() as u64;
+            if left > 8 && lr.next() % 16 == 0 {
+                let _ = w.enc.encode(Sym::Lit(lr.next() as u8));
+                continue;
+            }
+            if left < 2 {
+                let _ = w.enc.encode(Sym::Lit(b));
+            } else {
+                let _ = w.enc.encode(Sym::Match { dist: 1 + (lr.next() % 3) as u32 % (w.enc.model.avail().max(1) as u32), len: left.min(273) as u32 });
+            }
+        }
+        if !w.end_lzma_chunk(reset, ts) {
+            break;
+        }
+        note.push_str(&format!("L{}[{}] ", reset, target));
+    }
+    w.end();
+    Lzma2Built {
+        ps: gen::ProgStats::default(),
+        bytes: std::mem::take(&mut w.bytes),
+        expect: std::mem::take(&mut w.enc.model.out),
+        chunks: std::mem::take(&mut w.chunks),
+        trace: std::mem::take(&mut w.enc.trace),
+        note,
+    }
+}
+
 fn w_start(w: &Lzma2Writer) -> u64 {
     // output length at the start of the chunk being built
     w.chunks
@@ -392,12 +435,24 @@ pub fn gen_xz_plan(t: &mut Tape, max_block: u64) -> XzPlan {
         _ => t.range(2, 6),
     };
     // now and then: enough blocks for the index's record count to need two bytes
-    let many = t.below(40) == 0;
-    let nblocks = if many { [127u64, 128, 129, 200][t.below(4) as usize] } else { nblocks };
+    // (rarely three: 16384 and more)
+    let many = t.below(if max_block >= 100_000 { 8 } else { 40 }) == 0;
+    let nblocks = if many {
+        if max_block >= 100_000 && t.below(3) == 0 {
+            [16_383u64, 16_384, 16_385][t.below(3) as usize]
+        } else {
+            [127u64, 128, 129, 200][t.below(4) as usize]
+        }
+    } else {
+        nblocks
+    };
     let max_block = if many { max_block.min(6) } else { max_block };
     let mut blocks = Vec::new();
     for _ in 0..nblocks {
-        let b = if max_block >= 500 && t.below(12) == 0 {
+        let b = if max_block >= 100_000 && t.below(16) == 0 {
+            // a block of 2-3 MiB: its sizes need four-byte integers
+            gen_lzma2_huge(t)
+        } else if max_block >= 500 && t.below(12) == 0 {
             gen_lzma2_medium(t)
         } else {
             gen_lzma2(t, max_block, true)
